@@ -1713,6 +1713,8 @@ class Engine:
         """element k of an abstract sequence (0 <= k < len assumed by caller)"""
         if isinstance(k, int):
             k = I(k)
+        if getattr(sq, 'elem_fn', None):
+            return sq.elem_fn(self, k)
         v = VO_term(sq.elem(k), '%s[%s]' % (sq.name, z3.simplify(k)))
         if getattr(sq, 'shape', None):
             self.tfacts[(v.name, 'tuple')] = True
